@@ -11,10 +11,17 @@ GEN  TLC random walks through ProxyConn -> stimulus schedules; the counterexampl
 TV   every schedule is executed against the real zvbid (ASan/UBSan build, synthetic device, raw-socket clients of
      lib/vlib/proxy.py); the daemon's own action trace plus what the clients received is validated by
      Trace_ProxyConn (every step, every state dump, all invariants).
-Fault pass: a valid client session truncated at every byte (silence, then disconnect) and mutated at every byte, plus
-     field faults (length, type, strict, arg_size, buffer_count, magics, version) - with two witness clients whose
-     frame stream is checked after every fault, a liveness probe after every fault, the sanitizer log and the
-     daemon's exit status."""
+spec/ProxyFlow.tla   the composition ProxyConn x ProxyQueue (faulty client x frame flow): every daemon step as a joint step of the
+     connection layer and the data path; FaultIsolated, WitnessLosesNothing, CanCapture, ReleasedAll, WitnessServed (liveness)
+FLOW schedules generated from ProxyFlow (random walks in which frames were taken away from a client silent in the middle of
+     a message, i.e. silence for more frames than the daemon has buffers) + 15 directed neighbouring cases (never connects,
+     disconnect at byte k, garbage after a part, all services removed with a frame queued, token holder leaves, two faulty
+     clients, close in the middle of a frame written) with two witnesses of different service sets; select and thread variant,
+     1 and 8 base buffers; validated by Trace_ProxyQueue (every frame of every client) AND Trace_ProxyConn.
+Fault pass: a valid client session truncated at every byte (silence for more frames than there are buffers, then disconnect)
+     and mutated at every byte, plus field faults (length, type, strict, arg_size, buffer_count, magics, version) - with two
+     witness clients whose frame stream is checked after every frame, a liveness probe after every fault, the sanitizer log
+     and the daemon's exit status."""
 import json, os, random, re, struct
 from vlib import tlc, build, core, proxy
 from vlib.proxy import MSG
@@ -22,18 +29,23 @@ from vlib.proxy import MSG
 MANIFEST = dict(
     level="model_checking",
     engine="tlc-mc+trace-validation",
-    technique="TLA+ specs ProxyToken (token state machine of daemon/proxyd.c with the scheduler's policy left open, ghost token holders) "
-              "and ProxyConn (connection state x message matrix, read phases, all client deviations) checked exhaustively by TLC; "
+    technique="TLA+ specs ProxyToken (token state machine of daemon/proxyd.c with the scheduler's policy left open, ghost token holders), "
+              "ProxyConn (connection state x message matrix, read phases, all client deviations) and ProxyFlow (composition of ProxyConn "
+              "with the data path ProxyQueue: a faulty client while frames flow) checked exhaustively by TLC; "
               "TLC-generated stimulus schedules and a byte-by-byte fault pass are executed against the real daemon (sanitizer build, "
-              "synthetic capture device, raw-socket clients); the daemon's hook trace and the clients' observations are validated "
-              "step by step against the specs by TLC (trace validation)",
+              "synthetic capture device, raw-socket and library clients); the daemon's hook trace, the clients' observations and every "
+              "frame every client received are validated step by step against the specs by TLC (trace validation)",
     text="TLC explores all interleavings of connect, service, token request/return/release/reclaim-confirm, flush, close and of "
          "malformed, partial, mis-timed messages and disconnects for 3 clients (token) and 2-3 clients (connection layer): at most "
          "one token owner and one holder, grants only when free and only on request, no reachable assertion, a client's steps never "
-         "change another connection, closed connections release everything. The real daemon executes generated schedules and a "
-         "session truncated/mutated at every byte while witnesses receive every frame; TLC accepts the recorded trace only if every "
-         "daemon action and state dump is a step of the specification.",
-    note="Bounded: 3 clients / 2 priorities in MC; the scheduler's choice among eligible clients and all timing (durations, timer) are "
+         "change another connection, closed connections release everything. In the composition with the frame queue a client that "
+         "stops in the middle of a message (or never connects, sends refused messages, disconnects at any byte) is not forwarded to, "
+         "loses queued frames when the buffers run out, and changes nothing in what the other clients have received, have queued and "
+         "are owed; the daemon always finds a buffer for the next frame. The real daemon executes generated schedules (with a client "
+         "silent for more frames than there are buffers, two witnesses) and a session truncated/mutated at every byte while "
+         "witnesses receive every frame; TLC accepts the recorded trace only if every daemon action, state dump and delivered frame "
+         "is a step of the specifications.",
+    note="Bounded: 3 clients / 2 priorities in MC (composition: 2-3 clients, 2-6 frames); the scheduler's choice among eligible clients and all timing (durations, timer) are "
          "abstracted. Time-outs (60 s connect/I-O) are not exercised. TCP transport is not used (same code path after accept). "
          "Memory safety is decided by ASan/UBSan on the executed runs (exploration). The startup leak of the listen address "
          "(110 bytes, once) and UBSan's report on the never-dereferenced pointer `services - 1` are outside the statement.",
@@ -243,6 +255,14 @@ def execute(ses, steps, seed, ticks=False):
     return done
 
 
+def subscribed(d, fd):
+    """does the connection have services, by the daemon's last state dump"""
+    for e in reversed(d.events):
+        if "clients" in e:
+            return any(cl[0] == fd and cl[4] for cl in e["clients"])
+    return False
+
+
 def device_open(d):
     for e in reversed(d.events):
         if "open" in e:
@@ -320,6 +340,9 @@ def run_schedules(ctx, lay, scheds, label, thread=False, per_daemon=25):
                 except proxy.DaemonDied:
                     failed = (j, "died")
                     break
+                except (proxy.Overflow, proxy.DeviceClosed) as ex:
+                    failed = (j, "stall: %s" % ex)
+                    break
                 except proxy.Hang as ex:
                     failed = (j, "hang: %s" % ex)
                     break
@@ -335,6 +358,9 @@ def run_schedules(ctx, lay, scheds, label, thread=False, per_daemon=25):
             return rp_of(max([k for k, p0 in enumerate(spans) if p0 <= ev] or [0]))
         logs.append((recs, info))
         rp = rp_of(failed[0]) if failed else rp_of(ndone - 1)
+        if failed and failed[1].startswith("stall"):
+            ctx.violate("stall", ("overflow:%s" if "overflow" in failed[1] else "thread:devclosed:%s") % rp["name"].split("#")[0], failed[1], rp)
+            clean = False
         if failed and failed[1].startswith("hang"):
             if not confirm_hang(ctx, lay, rp):
                 raise tlc.ToolFailure("non-reproducible hang in %s: %s" % (rp["name"], failed[1]))
@@ -563,6 +589,9 @@ def label_stream(ses, c, lay, stream):
 
 
 _deaths = {}
+# frames ticked while a subscribed client is silent in the middle of a message: more than the daemon's buffers in the fault
+# pass (-buffers 1, the faulty session asks for 2, + one per connection: two witnesses, the faulty client, a probe)
+MANY_FRAMES = 9
 
 
 def fault_pass(ctx, lay, cases, label, thread=False, per_daemon=150):
@@ -592,23 +621,27 @@ def fault_pass(ctx, lay, cases, label, thread=False, per_daemon=150):
                 stream = b"".join(before) + mm + (b"".join(after) if after else b"")
                 send_stream(ses, c, list(before) + [mm] + (list(after) if after else []))
                 label_stream(ses, c, lay, stream)
-                # the others keep being served
+                # the others keep being served: one frame after every fault; after a message cut short by a client that
+                # is subscribed (silence in the middle of a message) more frames than the daemon has buffers - the
+                # frames pile up for the silent client and must be taken away from it, not from the witnesses
                 if ses.d.alive():
-                    f = ses.d.tick(1)[0]
-                    for wc, srv in w:
-                        wc.drain()
-                        fr = [m for m in wc.msgs[wc.seen:] if m["t"] == MSG["SLICED_IND"]]
-                        ses.observe([wc])
-                        exp = [[sid, ln, proxy.sim_payload(f, ln).hex()] for sid, ln in proxy.SIM_LINES if sid & srv]
-                        got = [[x["ts"], x["lines"]] for x in fr]
-                        if wc.eof or got != [[f, exp]]:
-                            ctx.violate("witness", "witness:%s" % name.split("@")[0].split(":")[0],
-                                        "after fault %s witness %s (services 0x%x) received %s instead of frame %d with lines %s%s"
-                                        % (name, wc.name, srv, json.dumps(got)[:600], f, [l for _, l, _ in exp],
-                                           " (connection closed)" if wc.eof else ""),
-                                        dict(kind="fault", thread=thread, case=[name, [x.hex() for x in before], mm.hex(),
-                                                                                [x.hex() for x in after] if after else None]))
-                            clean = False
+                    nt = MANY_FRAMES if name.startswith("trunc:") and c.dropped_at() is None and subscribed(ses.d, c.fd) else 1
+                    for _ in range(nt):
+                        f = ses.d.tick(1)[0]
+                        for wc, srv in w:
+                            wc.drain()
+                            fr = [m for m in wc.msgs[wc.seen:] if m["t"] == MSG["SLICED_IND"]]
+                            ses.observe([wc])
+                            exp = [[sid, ln, proxy.sim_payload(f, ln).hex()] for sid, ln in proxy.SIM_LINES if sid & srv]
+                            got = [[x["ts"], x["lines"]] for x in fr]
+                            if wc.eof or got != [[f, exp]]:
+                                ctx.violate("witness", "witness:%s" % name.split("@")[0].split(":")[0],
+                                            "after fault %s witness %s (services 0x%x) received %s instead of frame %d with lines %s%s"
+                                            % (name, wc.name, srv, json.dumps(got)[:600], f, [l for _, l, _ in exp],
+                                               " (connection closed)" if wc.eof else ""),
+                                            dict(kind="fault", thread=thread, case=[name, [x.hex() for x in before], mm.hex(),
+                                                                                    [x.hex() for x in after] if after else None]))
+                                clean = False
                     if not probe(ses):
                         ctx.violate("liveness", "probe:%s" % name.split("@")[0], "after fault %s the daemon did not take a DAEMON_PID_REQ" % name,
                                     dict(kind="fault", thread=thread, case=[name, [x.hex() for x in before], mm.hex(),
@@ -621,6 +654,8 @@ def fault_pass(ctx, lay, cases, label, thread=False, per_daemon=150):
                 ctx.count_case(["fault", name], nontrivial=True)
         except proxy.DaemonDied:
             failed = (cur, "died")
+        except (proxy.Overflow, proxy.DeviceClosed) as ex:
+            failed = (cur, "stall: %s" % ex)
         except proxy.Hang as ex:
             failed = (cur, "hang: %s" % ex)
         finally:
@@ -629,6 +664,9 @@ def fault_pass(ctx, lay, cases, label, thread=False, per_daemon=150):
         if failed and failed[0]:
             name, before, mm, after = failed[0]
             rp = dict(kind="fault", thread=thread, case=[name, [x.hex() for x in before], mm.hex(), [x.hex() for x in after] if after else None])
+            if failed[1].startswith("stall"):
+                ctx.violate("stall", ("overflow:%s" if "overflow" in failed[1] else "thread:devclosed:%s") % name.split("@")[0], failed[1], rp)
+                clean = False
             if failed[1].startswith("hang"):
                 if not confirm_fault_hang(ctx, lay, rp):
                     raise tlc.ToolFailure("non-reproducible hang in fault case %s: %s" % (name, failed[1]))
@@ -691,9 +729,10 @@ def mc(ctx, module, cfg, timeout, expect=None, workers=8, heap="6g", coverage=Fa
 
 def run(ctx):
     quick = ctx.tier == "quick"
-    ctx.cov["rule"] = ("cases = stimulus schedules (TLC random walks through ProxyConn, counterexamples of the repaired defects, directed "
-                       "schedules) and fault cases (one truncated / mutated client session each) executed against the real daemon and "
-                       "validated by Trace_ProxyConn; distinct by schedule / fault name; non-trivial = contains a token message or a deviation")
+    ctx.cov["rule"] = ("cases = stimulus schedules (TLC random walks through ProxyConn and through the composition ProxyFlow, counterexamples "
+                       "of the repaired defects, directed schedules) and fault cases (one truncated / mutated client session each) executed against "
+                       "the real daemon and validated by Trace_ProxyConn (flow schedules also by Trace_ProxyQueue); distinct by schedule / fault "
+                       "name; non-trivial = contains a token message or a deviation (flow: frames captured while a client misbehaves)")
     ctx.assumptions += ["local socket transport; clients and daemon of the same byte order",
                         "the capture clock is owned by the harness (synthetic device), one stimulus at a time, daemon quiescent in between",
                         "token scheduling policy and reservation times are not checked (any eligible client may be chosen)"]
@@ -710,6 +749,12 @@ def run(ctx):
     mc(ctx, "ProxyConn", "MC_ProxyConn_2" if quick else "MC_ProxyConn_t", 600 if quick else 3000, heap="8g")
     for cfg, inv in (("MC_ProxyConn_hdrlen", "NoCrash"), ("MC_ProxyConn_partial", "NoCrash")):
         mc(ctx, "ProxyConn", cfg, 600, expect=inv)
+    # the composition connection layer x data path (faulty client x frame flow)
+    for cfg in (["MC_ProxyFlow_2"] if quick else ["MC_ProxyFlow_2", "MC_ProxyFlow_thr", "MC_ProxyFlow_full", "MC_ProxyFlow_3"]):
+        mc(ctx, "MC_ProxyFlow", cfg, 600 if quick else 2400, heap="8g")
+    mc(ctx, "MC_ProxyFlow", "MC_ProxyFlow_reach", 600, expect="Q!NeverStuckLoses")      # the bounds reach the force-free of a silent client
+    if not quick:
+        mc(ctx, "MC_ProxyFlow", "MC_ProxyFlow_live", 2400, heap="8g")
     if not quick:
         r = tlc.run("ProxyConn", "MC_ProxyConn_reach", timeout=900, workers=8, heap="6g")
         ctx.add_mc(r, "MC_ProxyConn_reach")
@@ -743,6 +788,24 @@ def run(ctx):
     if not quick:
         run_schedules(ctx, lay, [(n + "/thread", [dict(s) for s in st], sd) for n, st, sd in scheds[:60]], "sched-thread", thread=True)
 
+    # ---- faulty client x frame flow: schedules generated from ProxyFlow + the directed neighbouring cases, executed with two
+    # witnesses, validated by Trace_ProxyQueue (every frame of every client) and Trace_ProxyConn
+    from checks import c18
+    flow = c18.flow_walks(ctx, 8 if quick else 150) + c18.flow_directed(1)
+    flow = [(n, st, ctx.seed * 7919 + 100000 + i) for i, (n, st) in enumerate(flow)]
+    ctx.sample(dict(source="TLC random walk through ProxyFlow (faulty client x frame flow)", steps=flow[0][1][:24]))
+    clogs = []
+    c18.run_schedules(ctx, lay, flow, "flow", thread=False, conn_tv=True, nontrivial=c18.flow_nontrivial, conn_logs=clogs)
+    c18.run_schedules(ctx, lay, flow if not quick else flow[0:8:2] + flow[8::2], "flow-thread", thread=True, conn_tv=True,
+                      nontrivial=c18.flow_nontrivial, conn_logs=clogs)
+    # the daemon's default number of buffers (8 + one per connection)
+    b8 = [(n, st, ctx.seed * 7919 + 200000 + i) for i, (n, st) in enumerate(c18.flow_directed(8))
+          if not quick or n in ("stuck-hdr4", "stuck-body", "two-stuck", "close-mid-write")]
+    c18.run_schedules(ctx, lay, b8, "flow-b8", thread=False, conn_tv=True, buffers=8, nontrivial=c18.flow_nontrivial, conn_logs=clogs)
+    if not quick:
+        c18.run_schedules(ctx, lay, b8, "flow-b8-thread", thread=True, conn_tv=True, buffers=8, nontrivial=c18.flow_nontrivial, conn_logs=clogs)
+    validate(ctx, clogs, "flow-conn")
+
     # ---- fault pass
     rnd = random.Random(ctx.seed * 31337 + 5)
     cases = fault_cases(lay, quick, rnd)
@@ -758,7 +821,11 @@ def replay(ctx, rp):
     build.build_daemon()
     lay = proxy.Layout(drv)
     r = rp["replay"]
-    if r["kind"] == "schedule":
+    if r["kind"] == "flow":
+        from checks import c18
+        c18.run_schedules(ctx, lay, [(r["name"], [dict(s) for s in r["steps"]], r["seed"])], "replay", thread=r.get("thread", False),
+                          buffers=r.get("buffers", 1), conn_tv=True, nontrivial=c18.flow_nontrivial)
+    elif r["kind"] == "schedule":
         run_schedules(ctx, lay, [(r["name"], [dict(s) for s in r["steps"]], r["seed"])], "replay", thread=r.get("thread", False))
     else:
         name, before, mm, after = r["case"]
